@@ -542,7 +542,16 @@ Theo::MacroApplicationResult Theo::apply_macros(
     if (input.size() > THEO_MACRO_MAX_TOKENS) break;
   }
 
-  if (changed)
+  // the budget (or the bound on the stream) ended the rewriting: that is an
+  // error only if a substitution is still possible
+  bool unfinished = false;
+  if (changed || passes == 0)
+    for (auto &d : usable)
+      if (d.detect(input)) {
+        unfinished = true;
+        break;
+      }
+  if (unfinished)
     res.errors.push_back(ParseError{
         ParseError::MACRO_APPLY_REACHED_MAX_PASSES,
         "Error: After " + std::to_string(passes) +
